@@ -3,9 +3,11 @@ Model/tie as C04 (coq/Lib/MB.v, correspondence on random trees); compared: multi
 calcM*w, kinetic energy.  The inverse operators are exercised by the search predicates only (not yet modelled)."""
 import os
 from vlib import *
-import mbcorr, C04
+import mbcorr, C04, C02
 
-PROPS = ['Props/Properties_C01.v']
+PROPS = ['Props/Properties_C01.v', 'Props/Properties_C01b.v']
+# tags of the C02 articulated-body model that belong to C01's inverse routes
+INV_TAGS = ('MINV', 'MINVMAT', 'ABI', 'PPLUS', 'DMAT', 'DIMAT', 'GMAT')
 TAGS = ('MW', 'MMATW', 'MROW', 'KE')
 
 def run(ctx):
@@ -15,7 +17,7 @@ def run(ctx):
     if d:
         nsys, maxb = (150, 10) if ctx.tier == 'quick' else (3000, 14)
         n, dis, stats = mbcorr.run(ctx, d, nsys, maxb, TAGS, seed_offset=1)
-        ctx.extra['correspondence'] = stats
+        ctx.extra['correspondence_forward_routes'] = stats
         if dis:
             x = dis[0]
             ctx.broken.append(('correspondence:mb:' + x['tag'], 'model and implementation differ on system %d (seed %d) tag %s[%d]: impl=%s model=%s' %
@@ -25,8 +27,19 @@ def run(ctx):
                        'multiplyByM(w), every entry of calcM, calcM*w and kinetic energy compared with the extracted model (rel tol 1e-9); '
                        'non-trivial = at least 3 bodies incl. Ground, distinct by the vector of (mobilizer type, reversed)')
     ctx.assumptions += ['theorems over R; float runs only validate the model against the code',
-                        'M^-1 routes (multiplyByMInv, calcMInv) are NOT in the model yet: only the implementation-side predicates MInv(M w)=w and calcMInv*calcM=I are run (always, as part of this check)',
+                        'M^-1 routes: modelled by the articulated-body passes of coq/C02/C02_Model.v; M(M^-1 f)=f proved for every tree under the per-body hypothesis that the computed inverse of D=~H P H is a symmetric inverse (discharged for dof<=2, measured on the float runs otherwise)',
                         'positive definiteness is proved under an explicit rank hypothesis (partial)']
-    # the inverse routes are not modelled: their consistency predicates are always evaluated on the implementation
+    # inverse routes: the articulated-body model built for C02 (coq/C02/C02_Model.v), restricted to the tags C01 is about
+    d2 = C02.build(ctx)
+    if d2:
+        saved = C02.TOL
+        C02.TOL = {t: v for t, v in saved.items() if t in INV_TAGS}
+        try:
+            nsys, maxb = (150, 10) if ctx.tier == 'quick' else (3000, 14)
+            C02.correspondence(ctx, d2, nsys, maxb)
+            ctx.extra['correspondence_inverse_routes'] = ctx.extra.pop('correspondence', None)
+        finally:
+            C02.TOL = saved
+    # implementation-side consistency predicates (M symmetric, routes agree, MInv(M w)=w, calcMInv*calcM=I, KE) are evaluated on every run
     C04.search(ctx, 'C01', 150 if ctx.tier == 'quick' else 3000, 12)
     ctx.finish()
